@@ -136,8 +136,26 @@ func (w *c8world) probeFields() []zap.Field {
 		return nil
 	case 8:
 		return []zap.Field{zap.Reflect("bad", make(chan int)), zap.Int("after", 1), zap.Reflect("good", c8refl{2, "y", nil})}
+	case 9:
+		// a reflected value whose MarshalJSON is a yield point: other tasks run
+		// while its rendering sits in the encoder's scratch space
+		return []zap.Field{zap.Reflect("y", yieldJSON{7}), zap.Int("after", 1), zap.Reflect("y2", yieldJSON{8})}
 	}
 	return []zap.Field{zap.Binary("b", []byte{1, 2, 3}), zap.Float64("f", 1.5), zap.Time("t", time.Unix(1700000000, 0).UTC()), zap.Any("any", []any{1, "two"})}
+}
+
+// c8mine: the bytes the named task wrote to the sink since call number from.
+// Relatives of the probe logger (history kind 20) share its device and may be
+// in the middle of a write of their own at any time; the device's call record
+// tells whose bytes are whose.
+func c8mine(s *zsim.SimSink, from int, task string) []byte {
+	var out []byte
+	for _, call := range s.Calls[from:] {
+		if call.Kind == 'W' && call.Task == task {
+			out = append(out, s.Data[call.Off:call.Off+call.Len]...)
+		}
+	}
+	return out
 }
 
 // callProbe is the single call site of the probe.
@@ -186,6 +204,10 @@ func (w *c8world) history(kind, a int, lg *zap.Logger) {
 			w.failing.Error("with a reflected field to a failing device", zap.Reflect("r", c8refl{a, "f", nil}))
 		}
 		w.failWant++
+	case 20:
+		// a relative of the probe logger logs a reflected value whose marshaler
+		// is a yield point
+		w.probeLg.With(zap.Int("sib", a)).Info("reflected value with a yielding marshaler, on a sibling", zap.Reflect("r", yieldJSON{100 + a}))
 	case 19:
 		// an entry accepted by ten cores at once (a wide tee on another logger)
 		w.wide.Info("through a tee of ten cores", zap.Int("a", a))
@@ -253,7 +275,7 @@ type c8hook struct{ w *c8world }
 
 func (h c8hook) OnWrite(*zapcore.CheckedEntry, []zapcore.Field) { h.w.hookGot++ }
 
-const c8kinds = 20
+const c8kinds = 21
 
 // c8panicArr: a user marshaler with a bug. zap does not contain panics of
 // object and array marshalers; the application (an HTTP server, say) recovers
@@ -304,7 +326,7 @@ func runC08(c *Ctx) {
 	mkEnc := func(con bool) zapcore.Encoder { return mkEncI(con, "") }
 	w.probeSk = zsim.NewSimSink(r, "probe", 1+g.Draw(2), 11)
 	r.Label(unsafe.Pointer(w.probeSk), "probe")
-	w.recipe = g.Draw(9)
+	w.recipe = g.Draw(10)
 	w.level = pick(g, zapcore.InfoLevel, zapcore.ErrorLevel)
 	var popts []zap.Option
 	popts = append(popts, zap.WithClock(clk))
@@ -317,7 +339,15 @@ func runC08(c *Ctx) {
 		popts = append(popts, zap.AddCaller())
 	}
 	w.probeLg = zap.New(zapcore.NewCore(mkEnc(console), zapcore.Lock(w.probeSk), zapcore.DebugLevel), popts...)
-	switch g.Draw(5) {
+	deriv := g.Draw(6)
+	if w.recipe == 9 && g.Chance(2) {
+		deriv = 5
+	}
+	switch deriv {
+	case 5:
+		// a context that holds a reflected value (the context encoder has used
+		// its reflection scratch space)
+		w.probeLg = w.probeLg.With(zap.Reflect("build", map[string]int{"n": 1}), zap.Int("z", 1))
 	case 4:
 		// a stored context larger than a pooled buffer's initial kilobyte: it is
 		// copied into every line in one piece
@@ -403,7 +433,11 @@ func runC08(c *Ctx) {
 				out = append(out, step{probe: true})
 				continue
 			}
-			out = append(out, step{kind: g.Draw(c8kinds), a: g.Draw(6), lg: g.Draw(3)})
+			st := step{kind: g.Draw(c8kinds), a: g.Draw(6), lg: g.Draw(3)}
+			if w.recipe == 9 && g.Chance(3) {
+				st.kind = 20 // reflected values with yielding marshalers on both sides
+			}
+			out = append(out, st)
 		}
 		return out
 	}
@@ -434,9 +468,9 @@ func runC08(c *Ctx) {
 	r.Go("main", func() {
 		for i, s := range main {
 			if s.probe {
-				before := len(w.probeSk.Data)
+				before := len(w.probeSk.Calls)
 				w.callProbe()
-				out := append([]byte(nil), w.probeSk.Data[before:]...)
+				out := c8mine(w.probeSk, before, "main")
 				if i == 0 {
 					ref = out
 					refDone = true
